@@ -1649,6 +1649,16 @@ impl Term<Name> {
     // or (if condition then error else body)
     // In this case it is fine to treat the body as if it is not delayed
     // since the other branch is error
+    //
+    // The executed branch is still scanned as the `Delay` it is (`then_arg` /
+    // `else_arg`, not `then_body` / `else_body`) so that it consumes the
+    // `force` wrapped around the builtin call: without that `force` nothing
+    // is executed at all.
+    //
+    // In every other case both branches are scanned as `Delay` terms without
+    // stack: a branch that is not guaranteed to run must report its
+    // occurrences as delayed, otherwise a possibly-throwing argument is
+    // inlined into a branch that may never be forced and its error is lost.
     fn carry_args_to_branch(
         &self,
         then_arg: &Rc<Term<Name>>,
@@ -1684,14 +1694,14 @@ impl Term<Name> {
         // unwrap apply and add void to arg stack!
         arg_stack.push(());
 
-        let Term::Delay(else_arg) = else_arg.as_ref() else {
+        let Term::Delay(else_body) = else_arg.as_ref() else {
             let lookup = var_occurrence_stack(builtin, arg_stack, cap);
             let lookup = combine_capped(lookup, condition);
             let lookup = combine_capped(lookup, then_arg);
             return combine_capped(lookup, else_arg);
         };
 
-        let Term::Delay(then_arg) = then_arg.as_ref() else {
+        let Term::Delay(then_body) = then_arg.as_ref() else {
             let lookup = var_occurrence_stack(builtin, arg_stack, cap);
             let lookup = combine_capped(lookup, condition);
             let lookup = combine_capped(lookup, then_arg);
@@ -1703,7 +1713,7 @@ impl Term<Name> {
                 if a.text == DefaultFunction::IfThenElse.wrapped_name()
                     || a.text == DefaultFunction::ChooseList.wrapped_name() =>
             {
-                if matches!(else_arg.as_ref(), Term::Error) {
+                if matches!(else_body.as_ref(), Term::Error) {
                     // Pop 3 args of arg_stack due to branch execution
                     arg_stack.pop();
                     arg_stack.pop();
@@ -1718,7 +1728,7 @@ impl Term<Name> {
                     let remaining = cap - lookup.occurrences;
 
                     lookup.combine(var_occurrence_stack(then_arg, arg_stack, remaining))
-                } else if matches!(then_arg.as_ref(), Term::Error) {
+                } else if matches!(then_body.as_ref(), Term::Error) {
                     // Pop 3 args of arg_stack due to branch execution
                     arg_stack.pop();
                     arg_stack.pop();
